@@ -11,7 +11,8 @@ Definition new_prefix {A} (newl oldl : list A) : list A := firstn (length newl -
 
 Definition eStep (s s' : sess) (r : result) : list Z :=
   [-101; eResult r] ++
-  eList (fun e : bool * positive => [if fst e then 1 else 0; Zpos (snd e)]) (rev (new_prefix (hlog s') (hlog s))) ++
+  eList (fun e : hev => [if he_alloc e then 1 else 0; Zpos (he_task e); Zpos (skey (he_status e))] ++ eNodeRef (he_node e))
+        (rev (new_prefix (hlog s') (hlog s))) ++
   eList (fun b : positive * option positive => Zpos (fst b) :: eNodeRef (snd b))
         (sort_kv (new_prefix (binds s') (binds s))) ++
   eList ePos (sort_pos (new_prefix (evicts s') (evicts s))) ++
@@ -44,12 +45,12 @@ Definition dTaskFull : dec task :=
 
 Definition dJobDump : dec job :=
   let* i := dPos in let* ts := dSet in let* ix := dIndex in let* al := dRes in let* tot := dRes in
-  let* subs := dList (let* sid := dPos in let* st := dSet in let* six := dIndex in ret (sid, mkSub st six)) in
+  let* subs := dList (let* sid := dPos in let* st := dSet in let* six := dIndex in ret (sid, mkSub 0 st six)) in
   let sm : gmap positive subjob := list_to_map subs in
   (* TaskToSubJob is rebuilt from the sub-jobs' task sets *)
   let tsub : gmap positive positive :=
     list_to_map (flat_map (fun kv => map (fun t => (t, fst kv)) (elements (sj_tasks (snd kv)))) subs) in
-  ret (mkJob i 1%positive 0 ts ix al tot sm tsub).
+  ret (mkJob i 1%positive 0 ∅ 0 ts ix al tot sm tsub).
 
 Definition dNodeDump (heap : gmap positive task) : dec node :=
   let* i := dPos in let* idle := dRes in let* used := dRes in let* rel := dRes in let* pip := dRes in
